@@ -2447,6 +2447,272 @@ def r8_process_global_precision_switch(ctx, rid):
     r8_global_precision_switches(ctx, rid)
 
 
+
+# =====================================================================================================================
+# R9  on a cache hit an explicitly given value wins over the cached default - decided by presence, not by truthiness
+# =====================================================================================================================
+
+class CacheCompletion:
+    """A cache entry may carry *defaults* with which the caller's own dict of explicit values is completed on a hit.  The entry was
+    computed for an earlier node / model, so whatever the caller gave explicitly must survive the completion: the fill of a key is
+    decided by the PRESENCE of the key in the caller's dict.  Sites = statements that put a value read from a global cache into a
+    dict that is (an alias of) a parameter, in the function that reads the cache or in callees the cached value is handed to."""
+
+    def __init__(self, ctx, rid):
+        self.ctx, self.rid, self.md = ctx, rid, model(ctx)
+        self.sites: List[tuple] = []          # (status, f, node, msg, label)
+        self._seen: Set[tuple] = set()
+
+    # -- value flow of what was read from the cache
+    def taint(self, f, seeds, param=None):
+        rd = self.ctx.rd(f)
+        seed_ids = {id(x) for x in seeds}
+        memo: Dict[int, bool] = {}
+
+        def T(x, depth=0):
+            if x is None or depth > 12:
+                return False
+            if id(x) in seed_ids:
+                return True
+            if id(x) in memo:
+                return memo[id(x)]
+            memo[id(x)] = False
+            r = False
+            if isinstance(x, ast.Name):
+                if self.md._shadowed(f, x.id):
+                    for d in rd.defs_reaching(x):
+                        if isinstance(d, ast.arguments):
+                            r = r or (param is not None and x.id == param)
+                        elif isinstance(d, (ast.Assign, ast.AnnAssign)) and d.value is not None:
+                            for tg in (d.targets if isinstance(d, ast.Assign) else [d.target]):
+                                if any(isinstance(n, ast.Name) and n.id == x.id for n in ast.walk(tg)):
+                                    if isinstance(tg, (ast.Tuple, ast.List)) and isinstance(d.value, (ast.Tuple, ast.List)) and len(tg.elts) == len(d.value.elts):
+                                        for t, v in zip(tg.elts, d.value.elts):
+                                            if any(isinstance(n, ast.Name) and n.id == x.id for n in ast.walk(t)):
+                                                r = r or T(v, depth + 1)
+                                    else:
+                                        r = r or T(d.value, depth + 1)
+                        elif isinstance(d, (ast.For, ast.AsyncFor)):
+                            r = r or T(d.iter, depth + 1)
+                        elif isinstance(d, (ast.With, ast.AsyncWith)):
+                            pass
+                else:
+                    g = None
+                    for a in ancestors(x):
+                        if isinstance(a, (ast.ListComp, ast.SetComp, ast.DictComp, ast.GeneratorExp)):
+                            for gen in a.generators:
+                                if any(isinstance(n, ast.Name) and n.id == x.id for n in ast.walk(gen.target)):
+                                    g = gen
+                    if g is not None:
+                        r = T(g.iter, depth + 1)
+            elif isinstance(x, (ast.Subscript, ast.Attribute, ast.Starred)):
+                r = T(x.value, depth + 1)
+            elif isinstance(x, ast.Call):
+                if isinstance(x.func, ast.Attribute) and x.func.attr in ("items", "values", "copy", "get", "pop", "keys"):
+                    r = T(x.func.value, depth + 1)
+                elif isinstance(x.func, ast.Name) and x.func.id in ("dict", "list", "tuple", "deepcopy", "copy", "sorted", "iter", "next", "enumerate", "zip") \
+                        and not self.md._shadowed(f, x.func.id):
+                    r = any(T(a, depth + 1) for a in x.args)
+            elif isinstance(x, ast.IfExp):
+                r = T(x.body, depth + 1) or T(x.orelse, depth + 1)
+            elif isinstance(x, ast.BoolOp):
+                r = any(T(v, depth + 1) for v in x.values)
+            memo[id(x)] = r
+            return r
+        return T
+
+    def is_callers_dict(self, f, e) -> bool:
+        """`e` is a name that may still be the dict the caller passed in (a parameter, possibly defaulted to an empty dict)"""
+        if not isinstance(e, ast.Name) or e.id not in f.params or e.id == f.self_name:
+            return False
+        return any(isinstance(d, ast.arguments) for d in self.ctx.rd(f).defs_reaching(e))
+
+    # -- classification of one fill
+    @staticmethod
+    def _same(a, b) -> bool:
+        return a is not None and b is not None and ast.dump(a) == ast.dump(b)
+
+    def _lookup_of(self, e, dname, key):
+        """'presence' / 'truthy-able' description of a lookup of `key` in the caller's dict: D[k], D.get(k), D.get(k, None), D.pop(k, None)"""
+        if isinstance(e, ast.Subscript) and isinstance(e.value, ast.Name) and e.value.id == dname and (key is None or self._same(e.slice, key)):
+            return True
+        if isinstance(e, ast.Call) and isinstance(e.func, ast.Attribute) and e.func.attr in ("get", "pop") and isinstance(e.func.value, ast.Name) \
+                and e.func.value.id == dname and e.args and (key is None or self._same(e.args[0], key)):
+            return len(e.args) == 1 or (isinstance(e.args[1], ast.Constant) and e.args[1].value is None)
+        return False
+
+    def _test_kind(self, f, t, dname, key):
+        """(kind, polarity): kind 'presence' (k in D / k not in D / D.get(k) is None), 'truthiness' (the looked-up value itself is the
+        test) or None (the test does not concern D); polarity True = the test is true when the key is PRESENT (resp. value truthy)."""
+        if isinstance(t, ast.UnaryOp) and isinstance(t.op, ast.Not):
+            k, p = self._test_kind(f, t.operand, dname, key)
+            return k, (None if p is None else not p)
+        if isinstance(t, ast.Compare) and len(t.ops) == 1:
+            op, l, r = t.ops[0], t.left, t.comparators[0]
+            if isinstance(op, (ast.In, ast.NotIn)):
+                cont = r.func.value if isinstance(r, ast.Call) and isinstance(r.func, ast.Attribute) and r.func.attr == "keys" else r
+                if isinstance(cont, ast.Name) and cont.id == dname and (key is None or self._same(l, key)):
+                    return "presence", isinstance(op, ast.In)
+            if isinstance(op, (ast.Is, ast.IsNot)) and isinstance(r, ast.Constant) and r.value is None and self._lookup_of(l, dname, key):
+                return "presence", isinstance(op, ast.IsNot)
+            return None, None
+        if self._lookup_of(t, dname, key):
+            return "truthiness", True
+        if isinstance(t, ast.Name) and self.md._shadowed(f, t.id):
+            defs = self.ctx.rd(f).defs_reaching(t)
+            vals = [getattr(d, "value", None) for d in defs if isinstance(d, (ast.Assign, ast.AnnAssign))]
+            if vals and len(vals) == len(defs) and all(self._lookup_of(v, dname, key) for v in vals):
+                return "truthiness", True
+        if isinstance(t, ast.BoolOp):
+            kinds = [self._test_kind(f, v, dname, key) for v in t.values]
+            hit = [k for k in kinds if k[0] is not None]
+            if len(hit) == 1:
+                return hit[0]
+            if hit:
+                return "unknown", None
+        return None, None
+
+    def _guards(self, f, st):
+        """[(test, branch taken to reach st: True body / False orelse)] of the if statements around st (innermost first) up to the
+        function, plus preceding sibling `if <test>: continue / return` statements (branch False)."""
+        out = []
+        cur = st
+        for a in ancestors(st):
+            if isinstance(a, (ast.FunctionDef, ast.AsyncFunctionDef)):
+                break
+            for fld in ("body", "orelse", "finalbody"):
+                b = getattr(a, fld, None)
+                if isinstance(b, list) and any(x is cur for x in b):
+                    i = [x is cur for x in b].index(True)
+                    for prev in b[:i]:
+                        if isinstance(prev, ast.If) and not prev.orelse and prev.body and isinstance(prev.body[-1], (ast.Continue, ast.Return, ast.Raise, ast.Break)):
+                            out.append((prev.test, False))
+                    if isinstance(a, ast.If):
+                        out.append((a.test, fld == "body"))
+            if isinstance(a, ast.stmt):
+                cur = a
+        return out
+
+    def fill(self, f, c, st, dname, key, value_expr, how):
+        """one completion site: statement st puts (an expression of) a cached value under `key` into the caller's dict `dname`"""
+        label = f"{c.key}: cached default completes `{dname}` [{norm(st, 90)}]"
+        e = value_expr
+        # the decision inside the expression
+        if isinstance(e, ast.BoolOp) and isinstance(e.op, ast.Or) and self._lookup_of(e.values[0], dname, key):
+            return self.emit("violation", f, st, label, f"`{norm(e)}` keeps the caller's value only when it is truthy: an explicit 0 / 0.0 / "
+                             f"empty value is replaced by the default cached for an earlier node or model")
+        if isinstance(e, ast.IfExp):
+            k, pol = self._test_kind(f, e.test, dname, key)
+            if k == "truthiness":
+                return self.emit("violation", f, st, label, f"`{norm(e)}` decides by the truthiness of the caller's value: an explicit 0 / 0.0 "
+                                 f"is replaced by the default cached for an earlier node or model")
+            if k == "presence":
+                own = e.body if pol else e.orelse
+                if self._lookup_of(own, dname, key):
+                    return self.emit("ok", f, st, label, "the caller's value is kept whenever the key is present")
+                return self.emit("violation", f, st, label, f"`{norm(e)}` takes the cached default although the key is present in `{dname}`")
+            raise AnalysisError(f"{self.rid}: cannot tell how `{norm(e)}` in {f.qual} chooses between the caller's value and the cached default")
+        if isinstance(e, ast.Call) and isinstance(e.func, ast.Attribute) and e.func.attr == "get" and isinstance(e.func.value, ast.Name) \
+                and e.func.value.id == dname and len(e.args) == 2:
+            return self.emit("ok", f, st, label, "`.get(key, default)` keeps the caller's value whenever the key is present")
+        if how == "setdefault":
+            return self.emit("ok", f, st, label, "`.setdefault` keeps the caller's value whenever the key is present")
+        # the decision around the statement
+        for test, branch in self._guards(f, st):
+            k, pol = self._test_kind(f, test, dname, key)
+            if k is None:
+                continue
+            if k == "unknown":
+                raise AnalysisError(f"{self.rid}: the guard `{norm(test)}` of `{norm(st)}` in {f.qual} mixes several tests of `{dname}` (unrecognised form)")
+            reached_when_true = branch
+            if k == "presence":
+                if pol != reached_when_true:
+                    return self.emit("ok", f, st, label, f"the cached default is filled in only where the key is absent (`{norm(test)}`)")
+                return self.emit("violation", f, st, label, f"`{norm(st)}` runs where the key IS present in `{dname}` (`{norm(test)}`): the cached "
+                                 f"default overwrites the value the caller gave")
+            if pol != reached_when_true:
+                return self.emit("violation", f, st, label, f"`{norm(st)}` is guarded by the truthiness of the caller's value (`{norm(test)}`): an "
+                                 f"explicit 0 / 0.0 / empty value counts as absent and is replaced by the default cached for an earlier node or model")
+            return self.emit("violation", f, st, label, f"`{norm(st)}` runs where the caller's value is truthy (`{norm(test)}`): the cached default "
+                             f"overwrites it")
+        return self.emit("violation", f, st, label, f"`{norm(st)}` puts the cached default into `{dname}` without asking whether the caller gave "
+                         f"that key: an explicit value is overwritten by what an earlier node or model left in the cache")
+
+    def emit(self, status, f, st, label, msg):
+        self.sites.append((status, f, st, msg, label))
+
+    # -- scan
+    def scan(self, f, c, T, depth):
+        cfg = self.ctx.cfg(f)
+        for n in walk_shallow(f.node):
+            if isinstance(n, (ast.Assign, ast.AnnAssign)) and n.value is not None:
+                for tg in (n.targets if isinstance(n, ast.Assign) else [n.target]):
+                    if isinstance(tg, ast.Subscript) and self.is_callers_dict(f, tg.value) and T(n.value):
+                        self.fill(f, c, n, tg.value.id, tg.slice, n.value, "store")
+                    elif isinstance(tg, ast.Name) and tg.id in f.params and isinstance(n.value, ast.Dict) and None in n.value.keys:
+                        # D = {**a, **b}: later entries win
+                        parts = [v for k, v in zip(n.value.keys, n.value.values) if k is None]
+                        di = [i for i, v in enumerate(parts) if self.is_callers_dict(f, v) and v.id == tg.id]
+                        ci = [i for i, v in enumerate(parts) if T(v)]
+                        if di and ci:
+                            label = f"{c.key}: cached default completes `{tg.id}` [{norm(n, 90)}]"
+                            if max(ci) < min(di):
+                                self.emit("ok", f, n, label, "the caller's entries are unpacked last: they win over the cached defaults")
+                            else:
+                                self.emit("violation", f, n, label, f"`{norm(n.value)}` unpacks the cached defaults after the caller's entries: every "
+                                          f"explicit value is overwritten by what an earlier node or model left in the cache")
+            elif isinstance(n, ast.Call) and isinstance(n.func, ast.Attribute) and self.is_callers_dict(f, n.func.value):
+                st = stmt_of(cfg, n)
+                if n.func.attr == "setdefault" and len(n.args) == 2 and T(n.args[1]):
+                    self.fill(f, c, st, n.func.value.id, n.args[0], n.args[1], "setdefault")
+                elif n.func.attr == "update" and len(n.args) == 1 and T(n.args[0]):
+                    self.emit("violation", f, st, f"{c.key}: cached default completes `{n.func.value.id}` [{norm(st, 90)}]",
+                              f"`{norm(n)}` lets every cached default overwrite the value the caller gave for that key")
+            elif isinstance(n, ast.Call) and depth < 2:
+                args = [(a, None, i) for i, a in enumerate(n.args) if not isinstance(a, ast.Starred)] + \
+                       [(k.value, k.arg, None) for k in n.keywords if k.arg is not None]
+                targs = [(a, kw, pos) for a, kw, pos in args if T(a)]
+                if not targs:
+                    continue
+                for t in self.md.ext_resolve(f, n)[0]:
+                    for a, kw, pos in targs:
+                        pn = self.md._param_for(t, n, kw, pos)
+                        if pn is None or pn not in t.params or (c.key, t.qual, pn) in self._seen:
+                            continue
+                        self._seen.add((c.key, t.qual, pn))
+                        self.scan(t, c, self.taint(t, [], param=pn), depth + 1)
+
+
+def r9_explicit_value_wins_over_cached_default(ctx, rid):
+    md = model(ctx)
+    cc = CacheCompletion(ctx, rid)
+    n_caches = 0
+    for key in sorted(md.containers):
+        c = md.containers[key]
+        if c.kind not in ("module", "class"):
+            continue
+        fx = facts_of(ctx, c)
+        if fx.klass != "cache":
+            continue
+        n_caches += 1
+        for f in sorted({e.f for e in fx.runtime if e.kind == "keyread"}, key=lambda x: x.qual):
+            seeds = [e.node for e in fx.runtime if e.f is f and e.kind == "keyread"]
+            cc.scan(f, c, cc.taint(f, seeds), 0)
+    ctx.require(n_caches >= 1, f"{rid}: no keyed cache among the global containers")
+    seen = set()
+    for status, f, st, msg, label in cc.sites:
+        if (f.qual, label) in seen:
+            continue
+        seen.add((f.qual, label))
+        if status == "ok":
+            ctx.ok(rid, f, st, msg, label=label)
+        else:
+            ctx.violation(rid, f, st, msg, label=label)
+    if not cc.sites:
+        raise AnalysisError(f"{rid}: no statement completes a caller's dict from a cache entry (anchor: OperatorTemplate.apply fills `values` "
+                            f"from the cached defaults on the pinned tree) - the completion has a form that is not recognised")
+
+
 RULES = [
     ("C13-R1", r1_inventory, 25),
     ("C13-R2", r2_cache_keys, 5),
@@ -2456,4 +2722,5 @@ RULES = [
     ("C13-R6", r6_stale_layout_dropped_before_use, 2),
     ("C13-R7", r7_generator_reset_with_its_caches, 1),
     ("C13-R8", r8_process_global_precision_switch, 1),
+    ("C13-R9", r9_explicit_value_wins_over_cached_default, 1),
 ]
